@@ -818,7 +818,6 @@ _NOTHM = ("decided by the per-step correspondence between the real code and the 
           "snapshot, enabled set and result after every scheduling step) plus the property's oracle on every real trace; "
           "the invariant that would state this property over all executions of the model is not proved yet - ")
 NO_THEOREM = {
-    "C05": _NOTHM + "needs the ownership ledger invariant (I11); the model keeps a per-payload drop ledger (g_drops) that the correspondence compares with the real destructor calls",
     "C17": _NOTHM + "needs the allocation inventory invariant; the model keeps the allocation ledger (live/freed) that the correspondence compares with the real allocator events",
 }
 
